@@ -375,6 +375,76 @@ def data_arm(v, idxname):
     return None
 
 
+def _length(e, A, depth=0):
+    """symbolic number of elements of an array expression inside a block loop, as a Poly over atoms len(<index local>); None if unknown.
+    X[I] has len(I); element-wise arithmetic keeps the length; np.concatenate([a, b]) adds; [] is 0; a conditionally bound local must
+    have the same length on every definition (the empty placeholder `[]` of an empty position counts as len(I) = 0 of that position)"""
+    if depth > 8:
+        return None
+    if isinstance(e, ast.List) and not e.elts:
+        return Poly()
+    if isinstance(e, ast.Name):
+        defs = A.get(e.id)
+        if not defs:
+            return None
+        if any(isinstance(d, ast.Call) and call_name(d) == "np.array" and d.args and "_idxs[" in U(d.args[0]) for d in defs):
+            return Poly.atom(("len", e.id))
+        ls = []
+        for d in defs:
+            if isinstance(d, ast.List) and not d.elts:
+                continue            # the placeholder of an empty position
+            ls.append(_length(d, A, depth + 1))
+        if ls and all(x is not None and x == ls[0] for x in ls):
+            return ls[0]
+        return None
+    if isinstance(e, ast.IfExp):
+        a, b = _length(e.body, A, depth + 1), _length(e.orelse, A, depth + 1)
+        if isinstance(e.orelse, ast.List) and not e.orelse.elts:
+            return a
+        if isinstance(e.body, ast.List) and not e.body.elts:
+            return b
+        return a if a is not None and a == b else None
+    if isinstance(e, ast.Subscript) and isinstance(e.slice, ast.Name):
+        return _length(e.slice, A, depth + 1)
+    if isinstance(e, ast.BinOp):
+        for side in (e.left, e.right):
+            l_ = _length(side, A, depth + 1)
+            if l_ is not None:
+                return l_
+        return None
+    if isinstance(e, ast.Call) and call_name(e) in ("np.concatenate", "np.hstack") and e.args and isinstance(e.args[0], (ast.List, ast.Tuple)):
+        tot = Poly()
+        for x in e.args[0].elts:
+            l_ = _length(x, A, depth + 1)
+            if l_ is None:
+                return None
+            tot = tot + l_
+        return tot
+    if isinstance(e, ast.Call) and isinstance(e.func, ast.Attribute) and e.func.attr in ("astype", "copy") :
+        return _length(e.func.value, A, depth + 1)
+    return None
+
+
+def _canon_len(e, A, I):
+    """len(X) -> len(I) wherever X provably has as many elements as the block's row set I"""
+    import copy
+    want = _length(ast.Name(id=I, ctx=ast.Load()), A)
+
+    class L(ast.NodeTransformer):
+        def visit_Call(self, n):
+            self.generic_visit(n)
+            if call_name(n) == "len" and len(n.args) == 1 and U(n.args[0]) != I and want is not None and _length(n.args[0], A) == want:
+                n.args = [ast.Name(id=I, ctx=ast.Load())]
+            return n
+
+        def visit_Attribute(self, n):
+            self.generic_visit(n)
+            if n.attr == "size" and U(n.value) != I and want is not None and _length(n.value, A) == want:
+                return ast.Call(func=ast.Name(id="len", ctx=ast.Load()), args=[ast.Name(id=I, ctx=ast.Load())], keywords=[])
+            return n
+    return L().visit(copy.deepcopy(e))
+
+
 def scalar_block(ctx, name):
     f, loop, i = block_loop(ctx, name)
     P, bound, prior_src, kind = BLOCKS[name]
@@ -394,6 +464,10 @@ def scalar_block(ctx, name):
         env["N"] = Ndef
     Nn = NN()
     Ne = NN(env)
+    mean = _canon_len(inline(mean, env), A, I)
+    sds = [_canon_len(inline(sds[0], env), A, I)]
+    if Ndef is not None:
+        Ndef = _canon_len(Ndef, A, I)
     denom = f"(self.prec * len({I}) + {prior})"
     ok_mean = Ne.n(mean) == Nn.n(parse_expr(f"self.prec * resid.sum() / {denom}")) or Ne.n(mean) == Nn.n(parse_expr(f"self.prec * np.sum(resid) / {denom}"))
     ok_sd = Ne.n(sds[0]) == Nn.n(parse_expr(f"1.0 / np.sqrt({denom})"))
@@ -405,7 +479,7 @@ def scalar_block(ctx, name):
     ok = pd is not None and U(pd.targets[0]) == f"self.{P}[{i}]"
     if ok:
         lenv = {n.targets[0].id: n.value for n in st.body if isinstance(n, ast.Assign) and isinstance(n.targets[0], ast.Name)}
-        sd = inline(pd.value.args[1], lenv)
+        sd = inline(inline(pd.value.args[1], lenv), aux)
         ok = Nn.n(pd.value.args[0]).is_zero() and Nn.n(sd) == Nn.n(parse_expr(f"1.0 / np.sqrt({prior})"))
     ctx.check("R4", f"{f.site()}::prior-arm", ok, f"without data: N(0, 1/sqrt({prior}))", "the no-data arm does not draw from the prior with the block's prior precision")
     # N is the number of residual rows (already part of the mean/sd forms when N is spelled len(I) in place)
@@ -424,12 +498,21 @@ def scalar_block(ctx, name):
         old = one(A, "old_value", f)
         old_ok = U(old) == f"self.{P}[{i}]"
         oldname = "old_value"
-        for kk in ("1", "2"):
+        # the two per-position residuals: named locals, or the elements of the stack written in place
+        stack_elts = None
+        rdef_ = A.get("resid", [])
+        if len(rdef_) == 1 and isinstance(rdef_[0], ast.Call) and call_name(rdef_[0]) in ("np.concatenate", "np.hstack") and rdef_[0].args \
+                and isinstance(rdef_[0].args[0], (ast.List, ast.Tuple)) and len(rdef_[0].args[0].elts) == 2:
+            stack_elts = rdef_[0].args[0].elts
+        for pos_, kk in enumerate(("1", "2")):
             rs = [data_arm(v, f"idx{kk}") for v in A.get(f"resid{kk}", []) if not isinstance(v, ast.List)]
+            if not rs and stack_elts is not None and not isinstance(stack_elts[pos_], ast.Name):
+                rs = [data_arm(stack_elts[pos_], f"idx{kk}")]
             ctx.need(len(rs) == 1 and rs[0] is not None, f"{f.site()}: residual of position {kk} not found")
             ok_res = NN(aux).n(rs[0]) == Nn.n(parse_expr(f"y[idx{kk}] - self.Mu[idx{kk}] + old_value"))
             ctx.check("R3", f"{f.site()}::residual-position-{kk}", ok_res and old_ok, f"resid{kk} == y[idx{kk}] - Mu[idx{kk}] + {P}[{i}]", f"partial residual of position {kk} is `{U(rs[0])}`")
-        ok_st = U(one(A, "resid", f)).replace(" ", "") == "np.concatenate([resid1,resid2])" and U(one(A, "idx", f)).replace(" ", "") == "np.concatenate([idx1,idx2])"
+        ok_st = (U(one(A, "resid", f)).replace(" ", "") == "np.concatenate([resid1,resid2])" or (stack_elts is not None and not any(isinstance(x, ast.Name) for x in stack_elts))) \
+            and U(one(A, "idx", f)).replace(" ", "") == "np.concatenate([idx1,idx2])"
         ctx.check("R3", f"{f.site()}::stack-order", ok_st and ok_N, "resid and idx are stacked in the same order; N = len(idx)", "residuals and indices of the two positions are not stacked in one order / N is not their count")
     upd = [n for n in walk_own(loop) if isinstance(n, ast.AugAssign) and isinstance(n.target, ast.Subscript) and U(n.target.value) == "self.Mu"]
     ok = len(upd) == 1 and isinstance(upd[0].op, ast.Add) and U(upd[0].target.slice) == I and Nn.n(upd[0].value) == Nn.n(parse_expr(f"self.{P}[{i}] - {oldname}")) \
@@ -701,17 +784,74 @@ def stale_reads(ctx, f):
 
 
 def r7(ctx):
+    """the intercept block under fake_intercept, by symbolic execution of the straight-line statements on that path:
+    the final self.alpha is mean(y) and the fitted values are shifted by exactly (new alpha - old alpha)"""
     f = ctx.fn(f"{IMPL}._alpha_step")
-    ifs = [n for n in f.node.body if isinstance(n, ast.If) and U(n.test) == "self.fake_intercept"]
-    ctx.need(len(ifs) == 1, f"{f.site()}: `if self.fake_intercept` not found")
-    body = ifs[0].body
-    ok = len(body) == 1 and isinstance(body[0], ast.Assign) and U(body[0].targets[0]) == "self.alpha" and U(body[0].value).replace(" ", "") in ("np.mean(self.y)", "np.array(self.y).mean()")
+    import copy
+
+    conditional = []
+
+    def follow(stmts):
+        """statements executed when self.fake_intercept is true (other tests: both arms refused unless they return / are data-free)"""
+        out = []
+        for st in stmts:
+            if isinstance(st, ast.If):
+                t = U(st.test).replace(" ", "")
+                if t == "self.fake_intercept":
+                    out += follow(st.body)
+                    continue
+                if t == "notself.fake_intercept":
+                    out += follow(st.orelse)
+                    continue
+                if st.body and isinstance(st.body[-1], (ast.Return, ast.Raise)) and not st.orelse:
+                    continue            # an early exit on another condition (no data yet)
+                if any(isinstance(x, ast.Assign) and any(U(t_) == "self.alpha" for t_ in x.targets) for x in ast.walk(st)):
+                    conditional.append(U(st.test))     # the intercept is (re)computed only under a further test
+                    continue
+                raise AnalysisError(f"{f.site()}: a test other than `self.fake_intercept` (`{U(st.test)[:50]}`) splits the intercept block")
+            out.append(st)
+        return out
+    seq = follow([st for st in f.node.body if not (isinstance(st, ast.Expr) and isinstance(st.value, ast.Constant))])
+    ctx.need(any(isinstance(n, ast.If) and "fake_intercept" in U(n.test) for n in walk_own(f.node)), f"{f.site()}: `if self.fake_intercept` not found")
+    alpha = ast.Name(id="ALPHA0", ctx=ast.Load())
+    env = {}
+    deltas = []
+    stored = False
+
+    class S(ast.NodeTransformer):
+        def visit_Attribute(self, n):
+            self.generic_visit(n)
+            if U(n) == "self.alpha" and isinstance(n.ctx, ast.Load):
+                return copy.deepcopy(alpha)
+            return n
+
+        def visit_Name(self, n):
+            if isinstance(n.ctx, ast.Load) and n.id in env:
+                return copy.deepcopy(env[n.id])
+            return n
+    for st in seq:
+        if isinstance(st, ast.Assign) and len(st.targets) == 1 and isinstance(st.targets[0], ast.Name):
+            env[st.targets[0].id] = S().visit(copy.deepcopy(st.value))
+        elif isinstance(st, ast.Assign) and len(st.targets) == 1 and U(st.targets[0]) == "self.alpha":
+            alpha = S().visit(copy.deepcopy(st.value))
+            stored = True
+        elif isinstance(st, ast.AugAssign) and U(st.target) == "self.Mu" and isinstance(st.op, ast.Add):
+            deltas.append(S().visit(copy.deepcopy(st.value)))
+        elif isinstance(st, ast.AugAssign) and U(st.target) == "self.Mu" and isinstance(st.op, ast.Sub):
+            deltas.append(ast.UnaryOp(op=ast.USub(), operand=S().visit(copy.deepcopy(st.value))))
+        elif isinstance(st, (ast.Return, ast.Pass)) or (isinstance(st, ast.Expr) and isinstance(st.value, ast.Call) and U(st.value.func).split(".")[0] in ("logger", "logging", "warnings")):
+            continue
+        else:
+            raise AnalysisError(f"{f.site()}: statement `{U(st)[:60]}` on the fake_intercept path is outside the assignment fragment")
+    ok = stored and not conditional and U(alpha).replace(" ", "") in ("np.mean(self.y)", "np.array(self.y).mean()", "np.asarray(self.y).mean()", "np.mean(np.array(self.y))")
     ctx.check("R7", f"{f.site()}::alpha-is-mean-of-y", ok, "under fake_intercept: alpha = mean(y), unconditionally",
-              f"under fake_intercept the arm is `{'; '.join(U(s) for s in body)[:120]}`: alpha must be set to the mean of the transformed observations on every step "
+              f"under fake_intercept alpha ends as `{U(alpha)[:100]}`{' only when ' + conditional[0] if conditional else ''}: alpha must be set to the mean of the transformed observations on every step "
               f"(a skipped recomputation leaves a stale intercept after reset_model)")
-    old = [n for n in f.node.body if isinstance(n, ast.Assign) and U(n.value) == "self.alpha"]
-    upd = [n for n in f.node.body if isinstance(n, ast.AugAssign) and U(n.target) == "self.Mu"]
-    ok = len(old) == 1 and len(upd) == 1 and NN().n(upd[0].value) == NN().n(parse_expr(f"self.alpha - {U(old[0].targets[0])}")) and old[0].lineno < ifs[0].lineno < upd[0].lineno
+    ok = False
+    if len(deltas) == 1 and stored:
+        Nn = Norm(strict=False, scalar=lambda a: True)
+        want = ast.BinOp(left=copy.deepcopy(alpha), op=ast.Sub(), right=ast.Name(id="ALPHA0", ctx=ast.Load()))
+        ok = Nn.n(deltas[0]) == Nn.n(want)
     ctx.check("R7", f"{f.site()}::Mu-shifted", ok, "Mu += alpha_new - alpha_old", "the fitted values are not shifted by the change of alpha")
 
 
